@@ -1007,10 +1007,9 @@ func (c *Conn) handleBdat(arg string) {
 	refuse := func(code int, enhCode EnhancedCode, msg string) {
 		c.writeResponse(code, enhCode, msg)
 
-		c.lineLimitReader.LineLimit = 0
+		c.lineLimitReader.passChunk(c.text.R, int64(size))
 		chunk := &io.LimitedReader{R: c.text.R, N: int64(size)}
 		io.Copy(ioutil.Discard, chunk)
-		c.lineLimitReader.LineLimit = c.server.MaxLineLength
 		if chunk.N > 0 {
 			// The connection failed inside the chunk: what may still
 			// arrive is the rest of it, not commands.
@@ -1110,7 +1109,8 @@ func (c *Conn) handleBdat(arg string) {
 		}()
 	}
 
-	c.lineLimitReader.LineLimit = 0
+	// The chunk is not made of lines, no limit applies to it.
+	c.lineLimitReader.passChunk(c.text.R, int64(size))
 
 	chunk := &io.LimitedReader{R: c.text.R, N: int64(size)}
 	n, err := io.Copy(pipe, chunk)
@@ -1123,10 +1123,6 @@ func (c *Conn) handleBdat(arg string) {
 		// the whole chunk.
 		io.Copy(ioutil.Discard, chunk)
 	}
-
-	// The chunk is through, what follows is a command line again, be it
-	// the next BDAT.
-	c.lineLimitReader.LineLimit = c.server.MaxLineLength
 
 	if err != nil {
 		if last && c.server.LMTP {
